@@ -74,6 +74,8 @@ class Expr:
         s, t = self.expr(e)
         if t == "bool":
             return f"(b2x {s})"
+        if t == "optnum" and getattr(self, "optnum_as_value", False):
+            return f"(opt_get {s})"     # only sound under an `is not None` test: callers guarantee it (guards sites)
         if t != "num":
             raise Unsupported(f"expected number, got {t}: {src(e)}")
         return s
@@ -98,6 +100,8 @@ class Expr:
         if isinstance(e, ast.Name):
             if e.id in self.ty:
                 return cname(e.id), self.ty[e.id]
+            if e.id in getattr(self, "consts", {}):
+                return self.expr(self.consts[e.id])
             raise Unsupported(f"free variable {e.id}")
         if is_attr(e, "np", "nan") or is_attr(e, "np", "NaN"):
             return "XNaN", "num"
@@ -164,12 +168,25 @@ class Expr:
             if not (isinstance(b, ast.Constant) and b.value is None):
                 raise Unsupported("is-comparison " + src(b))
             s, t = self.expr(a)
+            if t in ("num", "str", "bool", "numlist"):      # a value that is known not to be None
+                return "false" if isinstance(op, ast.Is) else "true"
             if t not in ("optnum", "optstr", "optbool"):
                 raise Unsupported(f"`is None` on {t}")
             r = f"(match {s} with None => true | Some _ => false end)"
             return r if isinstance(op, ast.Is) else f"(negb {r})"
         if isinstance(op, (ast.In, ast.NotIn)):
             s, t = self.expr(a)
+            if isinstance(b, ast.Name) and b.id in getattr(self, "consts", {}):
+                b = self.consts[b.id]
+            if t == "optstr" and isinstance(b, (ast.List, ast.Tuple)):
+                # membership of an optional string in a list that may contain None
+                has_none = any(isinstance(x, ast.Constant) and x.value is None for x in b.elts)
+                strs = [x for x in b.elts if isinstance(x, ast.Constant) and isinstance(x.value, str)]
+                if len(strs) + (1 if has_none else 0) != len(b.elts):
+                    raise Unsupported("membership " + src(b))
+                inner = "(" + " || ".join([f'String.eqb s_ "{x.value}"' for x in strs] + ["false"]) + ")%bool"
+                r = f"(match {s} with None => {'true' if has_none else 'false'} | Some s_ => {inner} end)"
+                return r if isinstance(op, ast.In) else f"(negb {r})"
             if t != "str" or not isinstance(b, (ast.List, ast.Tuple)) or not all(
                     isinstance(x, ast.Constant) and isinstance(x.value, str) for x in b.elts):
                 raise Unsupported("membership " + src(b))
@@ -177,6 +194,9 @@ class Expr:
             return r if isinstance(op, ast.In) else f"(negb {r})"
         sa, ta = self.expr(a)
         sb, tb = self.expr(b)
+        if ta == "optstr" and tb == "str" and isinstance(op, (ast.Eq, ast.NotEq)):
+            r = f"(match {sa} with None => false | Some s_ => String.eqb s_ {sb} end)"
+            return r if isinstance(op, ast.Eq) else f"(negb {r})"
         if ta == "str" and tb == "str" and isinstance(op, (ast.Eq, ast.NotEq)):
             r = f"(String.eqb {sa} {sb})"
             return r if isinstance(op, ast.Eq) else f"(negb {r})"
@@ -210,6 +230,22 @@ class Expr:
             if f.id in self.funcs:
                 cn, rt = self.funcs[f.id]
                 return "(" + " ".join([cn] + [self.num(a) for a in args]) + ")", rt
+        if (isinstance(f, ast.Attribute) and f.attr in ("any", "all") and not args) or \
+                (isinstance(f, ast.Attribute) and isinstance(f.value, ast.Name) and f.value.id == "np" and f.attr in ("any", "all") and len(args) == 1):
+            inner = f.value if not args else args[0]
+            kind = f.attr
+            lists = sorted({n.id for n in ast.walk(inner) if isinstance(n, ast.Name) and self.ty.get(n.id) == "numlist"})
+            if len(lists) != 1:
+                raise Unsupported("any()/all() needs exactly one list-valued parameter: " + src(e))
+            saved = self.ty[lists[0]]
+            self.ty[lists[0]] = "num"
+            try:
+                body = self.boolean(inner)
+            finally:
+                self.ty[lists[0]] = saved
+            q = "existsb" if kind == "any" else "forallb"
+            v = cname(lists[0])
+            return f"({q} (fun {v} => {body}) {v})", "bool"
         if isinstance(f, ast.Attribute) and isinstance(f.value, ast.Name) and f.value.id in ("np", "xr", "numpy"):
             n = f.attr
             if n in ("abs", "absolute", "fabs") and len(args) == 1:
@@ -295,7 +331,14 @@ def is_docstring(s):
 
 
 def is_raise_if(s):
-    return isinstance(s, ast.If) and all(isinstance(b, ast.Raise) for b in s.body) and not s.orelse
+    """`if c: [message assignments...] raise E(...)` with no else"""
+    if not (isinstance(s, ast.If) and s.body and isinstance(s.body[-1], ast.Raise) and not s.orelse):
+        return False
+    return all(isinstance(b, (ast.Assign, ast.AugAssign)) or is_docstring(b) for b in s.body[:-1])
+
+
+def has_raise(stmts):
+    return any(isinstance(n, ast.Raise) for st in stmts for n in ast.walk(st))
 
 
 def backward_slice(body, outputs, stop_at=None):
@@ -548,16 +591,21 @@ class Guards:
                     raise
                 if pre:
                     c = f"(andb {pre} {c})"
-                out.append((c, exc_class(s.body[0]), s.lineno))
+                out.append((c, exc_class(s.body[-1]), s.lineno))
+            elif isinstance(s, ast.If) and s.orelse and not has_raise(s.body) and has_raise(s.orelse) and self.only_param_test(s.test, X):
+                # `if c1: <no raise> elif c2: raise ...`  ->  guards of the else-part under (not c1)
+                c = f"(negb {self.guard_cond(s.test, X)})"
+                self.collect(s.orelse, X, out, f"(andb {pre} {c})" if pre else c)
             elif isinstance(s, ast.If) and not s.orelse and self.only_param_test(s.test, X):
                 # `if p is not None:` / `if flag:` around further guards
                 c = self.guard_cond(s.test, X)
                 self.collect(s.body, X, out, f"(andb {pre} {c})" if pre else c)
-            elif isinstance(s, ast.Expr) and isinstance(s.value, ast.Call) and isinstance(s.value.func, ast.Name) \
-                    and s.value.func.id in self.helpers:
-                self.inline(s.value, X, out, pre)
             else:
-                continue   # non-guard statements are not part of a guards site
+                # calls to named checker helpers anywhere in the statement (bare call, return f(...), x = f(...))
+                for c in ast.walk(s):
+                    if isinstance(c, ast.Call) and isinstance(c.func, ast.Name) and c.func.id in self.helpers:
+                        self.inline(c, X, out, pre)
+                continue   # other statements are not part of a guards site
 
     def only_param_test(self, test, X):
         try:
@@ -587,10 +635,29 @@ class Guards:
         types = {}
         subst = {}
         for f, a in actual.items():
-            s, t = X.expr(a)
+            try:
+                s, t = X.expr(a)
+            except Unsupported:
+                continue            # an actual we cannot type: guards that mention it are untranslatable
+            if t == "none":
+                continue
             types[f] = t
             subst[f] = s
+        # defaults of formals that were not passed (None defaults make `p is not None` guards vanish)
+        defaults = {}
+        pos = hfn.args.args
+        for a_, d_ in zip(pos[len(pos) - len(hfn.args.defaults):], hfn.args.defaults):
+            defaults[a_.arg] = d_
+        for a_, d_ in zip(hfn.args.kwonlyargs, hfn.args.kw_defaults):
+            if d_ is not None:
+                defaults[a_.arg] = d_
+        for f_, d_ in defaults.items():
+            if f_ not in actual and isinstance(d_, ast.Constant) and d_.value is None:
+                types[f_] = "optnum"
+                subst[f_] = "(@None xv)"
         X2 = SubstExpr(types, subst)
+        X2.consts = module_consts(self.tree_for(hname))
+        X2.optnum_as_value = True
         self.collect(hfn.body, X2, out, pre)
 
     def tree_for(self, hname):
@@ -609,9 +676,26 @@ class SubstExpr(Expr):
         return super().expr(e)
 
 
+def module_consts(tree):
+    """module-level NAME = "string" / [list of strings] assignments"""
+    out = {}
+    for st in tree.body:
+        if isinstance(st, ast.Assign) and len(st.targets) == 1 and isinstance(st.targets[0], ast.Name):
+            v = st.value
+            if isinstance(v, ast.Constant) and isinstance(v.value, (str, int, float)) and not isinstance(v.value, bool):
+                out[st.targets[0].id] = v
+            elif isinstance(v, (ast.List, ast.Tuple)) and all(isinstance(x, (ast.Constant, ast.Name)) for x in v.elts):
+                elts = [out.get(x.id, x) if isinstance(x, ast.Name) else x for x in v.elts]
+                if all(isinstance(x, ast.Constant) for x in elts):
+                    out[st.targets[0].id] = ast.List(elts=elts, ctx=ast.Load())
+    return out
+
+
 def translate_guards(tree, site, helper_trees=None):
     fn = find_function(tree, site["func"])
     X = Expr(site["params"])
+    X.consts = module_consts(tree)
+    X.optnum_as_value = True
     G = Guards(tree, site)
     if helper_trees:
         G.helpers = {k: helper_trees.get(k, tree) for k in site.get("helpers", [])}
